@@ -1255,3 +1255,23 @@ PROPS["C11"]["partial_gap"] = PROPS["C11"]["partial_gap"].replace(
     ' Oracle soundness: complete for C11 (C11_oracle_sound), the liveness rule supervision_never_ends included.')
 PROPS["C06"]["level_note"] += (' C06_lost_token_recovers_alone uses C05 (no poll panics from a Rep state), FdlOracleSound2.poll_bk (what a poll does to '
     'last_bus_activity) and FdlOracleSound9 (slot time covers the synchronisation pause).')
+PROPS["C12"]["level_note"] += (' C12_oracle_sound_sweep / C12_oracle_sound_claim_scan / C12_oracle_sound_safety (Proofs/C12OracleSound.v): also '
+    'R12_sweep_bound and R12_post_claim_scan_incomplete are never reported on a model transcript (all input histories, app_sends_data). '
+    'R12_sweep_bound is the end-to-end history form of C12_sweep_bound (token visits counted on the transcript, window restarted when NS changes, '
+    'on a claim token, on going back to listening / offline); the proof is a simulation between the monitor\'s visit counter / per-address marks and '
+    'the model\'s GAP state with visits_until as potential, driven by the whole-poll relation C12_poll_sweep_rel (one GAP step per GAP request and '
+    'per token of a visit, none otherwise; for all station states), for NS anywhere in 0..127 and successors changing during a sweep. With '
+    'app_sends_requests the only C12 rule that can still be reported on a model transcript is the liveness rule gap_wait_never_ends.')
+PROPS["C12"]["partial_gap"] += (' UPDATE: sweep_bound and post_claim_scan_incomplete are now covered (C12_oracle_sound_sweep, '
+    'C12_oracle_sound_claim_scan; 30 theorems in coq/Properties/C12.v); of the oracle-soundness chain only the liveness rule gap_wait_never_ends '
+    'remains open (needs exact tracking of pending_bytes / last_bus_activity against the monitor\'s l_ref / l_spur).')
+PROPS["C12"]["level_note"] += (' C12_oracle_sound_gap_wait / C12_oracle_sound (Proofs/C12OracleSound.v, part 3): the liveness rule '
+    'R12_gap_wait_never_ends is never reported on a model transcript either, so with app_sends_requests NO rule of C12 is reported on any model '
+    'transcript (C12_oracle_sound: rule_prop r <> PC12). Proof: exact tracking of last_bus_activity / pending_bytes in the states that await a GAP '
+    'reply (await_poll_exact: a poll that stays in such a state either stops at the ongoing-transmission check or looks at the buffer with the slot '
+    'timer not run out; entry_plb: every entry is a transmission that leaves pending_bytes >= bytes buffered) and the simulation LW '
+    '(last_bus_activity <= l_ref, l_txend <= last_bus_activity, pending_bytes = buffer length unless l_spur).')
+PROPS["C12"]["partial_gap"] += (' UPDATE 2: gap_wait_never_ends is covered too (C12_oracle_sound_gap_wait, C12_oracle_sound; 32 theorems): the '
+    'oracle-soundness chain of C12 is closed for model transcripts under apps_total, builder_valid, app_sends_data, app_sends_requests, ins_ok '
+    '(strictly increasing poll times). What remains outside Coq is the usual link model <-> Rust (differential testing) and the hook-based fields '
+    'of the view (v_gap_due, v_scan_await).')
